@@ -58,6 +58,33 @@ class Lost(Exception):
     pass
 
 
+SLOT_DIR = os.environ.get("XV_SLOTS", "/tmp/xv-slots")
+
+
+class _Slot:
+    """Machine-wide cap on concurrently running workers (one flock'ed file per core), so that several check
+    runs started at the same time (agents, vp run, vp check) share the 16 cores instead of oversubscribing them.
+    Purely a throttle: created on demand, nothing persistent is needed."""
+
+    def __enter__(self):
+        import fcntl
+        os.makedirs(SLOT_DIR, exist_ok=True)
+        n = max(2, os.cpu_count() or 4)
+        while True:
+            for i in range(n):
+                fd = os.open(os.path.join(SLOT_DIR, f"slot-{i}.lock"), os.O_CREAT | os.O_RDWR, 0o666)
+                try:
+                    fcntl.flock(fd, fcntl.LOCK_EX | fcntl.LOCK_NB)
+                    self.fd = fd
+                    return self
+                except OSError:
+                    os.close(fd)
+            time.sleep(0.25)
+
+    def __exit__(self, *a):
+        os.close(self.fd)
+
+
 def _run_job(check_id: str, job: dict, workdir: str, idx: int, timeout: float):
     jf = os.path.join(workdir, f"job{idx}.json")
     of = os.path.join(workdir, f"out{idx}.json")
@@ -66,8 +93,9 @@ def _run_job(check_id: str, job: dict, workdir: str, idx: int, timeout: float):
         json.dump(job, f)
     env = worker_env(job.get("env"))
     env["XV_JOURNAL"] = jl
-    t0 = time.time()
     info = {"idx": idx, "job": job, "status": "ok"}
+    slot = _Slot().__enter__()
+    t0 = time.time()
     try:
         p = subprocess.run([PY, "-m", "xv.worker", check_id, jf, of], cwd=ROOT, env=env,
                            stdout=subprocess.PIPE, stderr=subprocess.PIPE, timeout=timeout)
@@ -78,6 +106,7 @@ def _run_job(check_id: str, job: dict, workdir: str, idx: int, timeout: float):
     except subprocess.TimeoutExpired as e:
         info["status"] = "timeout"
         info["stderr"] = (e.stderr or b"").decode("utf-8", "replace")[-2000:]
+    finally_slot = slot.__exit__(None, None, None)
     info["wall"] = time.time() - t0
     if os.path.exists(jl):
         try:
